@@ -5,6 +5,7 @@
   `exprText`), `substArgs` (`str::replace` of `@n`), macro storage in `skipStep`/`directiveParse`.
 -/
 import Avra.Model.Build
+import Avra.Props.C14
 namespace Avra.Props.C09
 open Avra Avra.Model
 
@@ -47,5 +48,641 @@ theorem index_argument_text (r : Reg16) (e : Expr) :
     syntax error (the grammar has no `@`) — this is how "omitting an argument the body uses" fails -/
 theorem no_arguments_no_substitution (l : Str) : substArgs [] l = l := by
   simp [substArgs, substArgs.go]
+
+section ReadBack
+open Avra.Peg Avra.Lemmas.Fuel Avra.Props.C14
+
+/-! ### the text pasted for an expression argument reads back as that expression -/
+
+/-- characters an operand text can start with -/
+def StartChar (y : Char) : Prop :=
+  isIdentStart y = true ∨ isDigit y = true ∨ y = '(' ∨ y = '-' ∨ y = '~' ∨ y = '!' ∨ y = '$'
+
+/-- operator characters that start no operand -/
+def nonStart (y : Char) : Prop := y = '<' ∨ y = '=' ∨ y = '>' ∨ y = '|' ∨ y = '&'
+
+/-- `t` is tried before the operator text `o` is reached; it must not win: it mismatches inside
+    `o`, or it is `o` plus one non-start character, or it is a proper prefix of `o` whose
+    continuation is a non-start character -/
+def okBefore : Str → Str → Bool
+  | [], [] => false
+  | [], y :: _ => y == '<' || y == '=' || y == '>' || y == '|' || y == '&'
+  | [d], [] => d == '<' || d == '=' || d == '>' || d == '|' || d == '&'
+  | _ :: _ :: _, [] => false
+  | p :: ps, c :: cs => if p = c then okBefore ps cs else true
+
+theorem startChar_not_nonStart (c : Char) (hc : StartChar c) : ¬ nonStart c := by
+  intro hn
+  rcases hn with rfl | rfl | rfl | rfl | rfl <;>
+    (rcases hc with h | h | h | h | h | h | h <;> revert h <;> decide)
+
+theorem lit_before (t : Str) : ∀ (o : Str), okBefore t o = true → ∀ (c : Char) (rest : Str), StartChar c →
+    lit t (o ++ c :: rest) = none ∨ ∃ y ys, lit t (o ++ c :: rest) = some (y :: ys) ∧ nonStart y := by
+  induction t with
+  | nil =>
+    intro o h c rest hc
+    cases o with
+    | nil => simp [okBefore] at h
+    | cons y ys =>
+      right
+      refine ⟨y, ys ++ c :: rest, by simp [lit], ?_⟩
+      simp only [okBefore, Bool.or_eq_true, beq_iff_eq] at h
+      rcases h with (((h | h) | h) | h) | h
+      · exact Or.inl h
+      · exact Or.inr (Or.inl h)
+      · exact Or.inr (Or.inr (Or.inl h))
+      · exact Or.inr (Or.inr (Or.inr (Or.inl h)))
+      · exact Or.inr (Or.inr (Or.inr (Or.inr h)))
+  | cons p ps ih =>
+    intro o h c rest hc
+    cases o with
+    | nil =>
+      cases ps with
+      | nil =>
+        left
+        simp only [okBefore, Bool.or_eq_true, beq_iff_eq] at h
+        have hn : nonStart p := by
+          rcases h with (((h | h) | h) | h) | h
+          · exact Or.inl h
+          · exact Or.inr (Or.inl h)
+          · exact Or.inr (Or.inr (Or.inl h))
+          · exact Or.inr (Or.inr (Or.inr (Or.inl h)))
+          · exact Or.inr (Or.inr (Or.inr (Or.inr h)))
+        have : p ≠ c := by intro hpc; subst hpc; exact startChar_not_nonStart p hc hn
+        simp [lit, this]
+      | cons q qs => simp [okBefore] at h
+    | cons y ys =>
+      simp only [okBefore] at h
+      by_cases hpy : p = y
+      · subst hpy
+        simp only [if_true] at h
+        have := ih ys h c rest hc
+        simpa [lit] using this
+      · left; simp [lit, hpy]
+
+abbrev Ent := Str × BinOp × Nat × Nat
+
+def splitOp (op : BinOp) : List Ent → Option (List Ent × Ent × List Ent)
+  | [] => none
+  | x :: xs =>
+    if x.2.1 = op then some ([], x, xs)
+    else (splitOp op xs).map fun r => (x :: r.1, r.2.1, r.2.2)
+
+theorem splitOp_spec (op : BinOp) : ∀ (l pre : List Ent) (e : Ent) (post : List Ent),
+    splitOp op l = some (pre, e, post) → l = pre ++ e :: post ∧ e.2.1 = op := by
+  intro l
+  induction l with
+  | nil => intro pre e post h; simp [splitOp] at h
+  | cons x xs ih =>
+    intro pre e post h
+    simp only [splitOp] at h
+    split at h
+    · rename_i hx
+      simp only [Option.some.injEq, Prod.mk.injEq] at h
+      obtain ⟨rfl, rfl, rfl⟩ := h
+      exact ⟨rfl, hx⟩
+    · simp only [Option.map_eq_some_iff] at h
+      obtain ⟨⟨p, e', q⟩, hs, heq⟩ := h
+      simp only [Prod.mk.injEq] at heq
+      obtain ⟨rfl, rfl, rfl⟩ := heq
+      obtain ⟨h1, h2⟩ := ih p e' q hs
+      exact ⟨by rw [h1]; rfl, h2⟩
+
+/-- the (regenerated) operator table, checked once per operator: the operator has an entry with
+    its own text, left-associative, and every entry scanned before it cannot win -/
+def checkOp (op : BinOp) : Bool :=
+  match splitOp op infixOps with
+  | some (pre, e, _) => e.1 == op.text && e.2.2.2 == e.2.2.1 + 1 && pre.all fun x => okBefore x.1 op.text
+  | none => false
+
+theorem table_checked : ∀ op : BinOp, checkOp op = true := by
+  intro op; cases op <;> decide
+
+theorem table_split (op : BinOp) : ∃ pre lv post, infixOps = pre ++ (op.text, op, lv, lv + 1) :: post ∧
+    ∀ x ∈ pre, okBefore x.1 op.text = true := by
+  have h := table_checked op
+  unfold checkOp at h
+  split at h
+  · rename_i pre e post hs
+    obtain ⟨hl, he⟩ := splitOp_spec op _ _ _ _ hs
+    obtain ⟨t, b, lv, rl⟩ := e
+    simp only [Bool.and_eq_true, beq_iff_eq, List.all_eq_true] at h
+    obtain ⟨⟨h1, h2⟩, h3⟩ := h
+    simp only at he h1 h2
+    subst he; subst h1; subst h2
+    exact ⟨pre, lv, post, hl, h3⟩
+  · simp at h
+
+/-- entries that cannot win are passed over -/
+theorem tryInfix_skip (m : Nat) (e : Expr) (s0 s : Str) :
+    ∀ (pre : List Ent), (∀ x ∈ pre, lit x.1 (skipSpace s) = none ∨
+        ∃ y ys, lit x.1 (skipSpace s) = some (y :: ys) ∧ noStart y ∧ isSpace y = false) →
+      ∀ (tail : List Ent) (f : Nat), (s.length + 1) * K ≤ f →
+        tryInfix (f + pre.length) m (pre ++ tail) e s0 s = tryInfix f m tail e s0 s := by
+  intro pre
+  induction pre with
+  | nil => intro _ tail f _; rfl
+  | cons x more ih =>
+    intro hl tail f hf
+    obtain ⟨t, b, lv, rlv⟩ := x
+    have hmore := ih (fun y hy => hl y (List.mem_cons_of_mem _ hy)) tail f hf
+    have : f + ((t, b, lv, rlv) :: more).length = (f + more.length) + 1 := by simp only [List.length_cons]; omega
+    rw [this]
+    simp only [List.cons_append, tryInfix]
+    split
+    · exact hmore
+    · rcases hl (t, b, lv, rlv) (List.mem_cons_self ..) with hnone | ⟨y, ys, hsome, hy, hsp⟩
+      · simp only [hnone]; exact hmore
+      · simp only [hsome]
+        have hsk : skipSpace (y :: ys) = y :: ys := by simp [skipSpace, hsp]
+        have hlen := lit_len _ _ _ hsome
+        have hsl := skipSpace_len s
+        simp only [List.length_cons] at hlen
+        have hmul : (ys.length + 2) * K ≤ (s.length + 1) * K := Nat.mul_le_mul_right K (by omega)
+        rw [hsk, infix_fails y ys hy (f + more.length) (by omega) rlv]
+        exact hmore
+
+/-! #### small facts -/
+
+theorem identStart_facts (y : Char) (h : isIdentStart y = true) :
+    isDigit y = false ∧ isSpace y = false ∧ y ≠ '$' ∧ y ≠ '(' ∧ y ≠ '\'' ∧ y ≠ '-' ∧ y ≠ '~' ∧ y ≠ '!' ∧ y ≠ '0' := by
+  have hd : isDigit y = false := by
+    cases hdg : isDigit y with
+    | false => rfl
+    | true =>
+      exfalso
+      simp only [isIdentStart, isAlpha, Bool.or_eq_true, beq_iff_eq] at h
+      simp only [isDigit, Bool.and_eq_true, decide_eq_true_eq] at hdg
+      rcases h with (hi | hi) | rfl
+      · simp only [Bool.and_eq_true, decide_eq_true_eq] at hi
+        have h1 := hi.1; have h2 := hdg.2
+        simp only [Char.le_def, UInt32.le_iff_toNat_le] at h1 h2
+        have : 'a'.val.toNat = 97 := by decide
+        have : '9'.val.toNat = 57 := by decide
+        omega
+      · simp only [Bool.and_eq_true, decide_eq_true_eq] at hi
+        have h1 := hi.1; have h2 := hdg.2
+        simp only [Char.le_def, UInt32.le_iff_toNat_le] at h1 h2
+        have : 'A'.val.toNat = 65 := by decide
+        have : '9'.val.toNat = 57 := by decide
+        omega
+      · revert hdg; decide
+  have ne : ∀ c : Char, isIdentStart c = false → y ≠ c := by
+    intro c hc hyc; subst hyc; rw [h] at hc; exact absurd hc (by decide)
+  refine ⟨hd, ?_, ne _ (by decide), ne _ (by decide), ne _ (by decide), ne _ (by decide), ne _ (by decide), ne _ (by decide), ne _ (by decide)⟩
+  cases hsp : isSpace y with
+  | false => rfl
+  | true =>
+    simp only [isSpace, Bool.or_eq_true, beq_iff_eq] at hsp
+    rcases hsp with rfl | rfl <;> (revert h; decide)
+
+theorem lit_self (t s : Str) : lit t (t ++ s) = some s := by
+  induction t with
+  | nil => rfl
+  | cons p ps ih => simp [lit, ih]
+
+/-- nothing follows a closing parenthesis in the infix loop -/
+theorem opEnd_paren (rest : Str) : OpEnd (')' :: rest) := by
+  intro x hx
+  left
+  have : skipSpace (')' :: rest) = ')' :: rest := by simp +decide [skipSpace]
+  rw [this]
+  have key : ∀ x ∈ infixOps, x.1 ≠ [] ∧ x.1.head? ≠ some ')' := by decide
+  exact lit_head_ne _ _ _ (key x hx).1 (key x hx).2
+
+theorem loop_paren (f m : Nat) (e : Expr) (rest : Str) (hf : infixOps.length + 2 + (rest.length + 2) * K ≤ f) :
+    parseLoop f m e (')' :: rest) = .ok e (')' :: rest) := by
+  obtain ⟨g, rfl⟩ : ∃ g, f = g + 1 := ⟨f - 1, by omega⟩
+  simp only [parseLoop]
+  have h2 : ((')' :: rest).length + 1) * K = (rest.length + 2) * K := by simp
+  exact tryInfix_through m e _ _ (opEnd_paren rest) infixOps (fun x hx => hx) g (by rw [h2]; omega)
+
+/-- above the level of every infix operator the loop ends at once -/
+theorem tryInfix_above (m : Nat) (e : Expr) (s0 s : Str) : ∀ (l : List Ent), (∀ x ∈ l, x.2.2.1 < m) →
+    ∀ f, l.length < f → tryInfix f m l e s0 s = .ok e s0 := by
+  intro l
+  induction l with
+  | nil =>
+    intro _ f hf
+    obtain ⟨g, rfl⟩ : ∃ g, f = g + 1 := ⟨f - 1, by omega⟩
+    simp [tryInfix]
+  | cons x more ih =>
+    intro hl f hf
+    obtain ⟨t, b, lv, rlv⟩ := x
+    simp only [List.length_cons] at hf
+    obtain ⟨g, rfl⟩ : ∃ g, f = g + 1 := ⟨f - 1, by omega⟩
+    have hlt : lv < m := hl (t, b, lv, rlv) (List.mem_cons_self ..)
+    simp only [tryInfix, hlt, if_true]
+    exact ih (fun y hy => hl y (List.mem_cons_of_mem _ hy)) g (by omega)
+
+theorem prefixAtom_atom (s : Str) (hs : ∀ x ∈ prefixOps, lit x.1 s = none) (f : Nat) :
+    parsePrefixAtom (f + prefixOps.length + 2) s = parseAtom f s := by
+  have : f + prefixOps.length + 2 = (f + prefixOps.length + 1) + 1 := rfl
+  rw [this]
+  simp only [parsePrefixAtom]
+  exact tryPrefix_through s prefixOps hs f
+
+theorem prefix_none_of (y : Char) (ys : Str) (h : y ≠ '-' ∧ y ≠ '~' ∧ y ≠ '!') : ∀ x ∈ prefixOps, lit x.1 (y :: ys) = none := by
+  have key : ∀ x ∈ prefixOps, x.1 ≠ [] ∧ ∀ c, x.1.head? = some c → c = '-' ∨ c = '~' ∨ c = '!' := by decide
+  intro x hx
+  obtain ⟨hne, hh⟩ := key x hx
+  apply lit_head_ne _ _ _ hne
+  intro hc
+  rcases hh y hc with rfl | rfl | rfl
+  · exact h.1 rfl
+  · exact h.2.1 rfl
+  · exact h.2.2 rfl
+
+/-- the fuel an input asks for, and how it shrinks with the input -/
+def need (s : Str) : Nat := (s.length + 2) * K
+
+theorem need_step (s' s : Str) (h : s'.length + 1 ≤ s.length) : need s' + K ≤ need s := by
+  unfold need
+  have : (s'.length + 2) * K + K = (s'.length + 3) * K := by
+    rw [Nat.add_mul (s'.length + 2) 1 K]; simp
+  rw [this]
+  exact Nat.mul_le_mul_right K (by omega)
+
+theorem K_eq : K = prefixOps.length + infixOps.length + 8 := rfl
+
+/-! #### the expressions the parser produces, and their texts -/
+
+/-- expressions as the parser builds them: names are identifiers, constants are not negative and
+    are printed as a number `e_const` reads back, functions are called by name -/
+inductive Wf : Expr → Prop
+  | ident (s : Str) : isName s → Wf (.ident s)
+  | const (v : Int) (n : Nat) : v = (n : Int) → NumText (intToDec v) n → Wf (.const v)
+  | func (name : Str) (a : Expr) : isName name → Wf a → Wf (.func (.ident name) a)
+  | bin (op : BinOp) (l r : Expr) : Wf l → Wf r → Wf (.bin op l r)
+  | un (u : UnOp) (e : Expr) : Wf e → Wf (.un u e)
+
+/-- what may follow an operand text: no identifier character, no `(`, no blank -/
+def AtomEnd (rest : Str) : Prop := ∀ y, rest.head? = some y → isIdentChar y = false ∧ y ≠ '(' ∧ isSpace y = false
+
+theorem atomEnd_paren (rest : Str) : AtomEnd (')' :: rest) := by
+  intro y hy; simp at hy; subst hy; decide
+
+theorem atomEnd_op (op : BinOp) (rest : Str) : AtomEnd (op.text ++ rest) := by
+  intro y hy
+  cases op <;> (simp [BinOp.text] at hy; subst hy; decide)
+
+theorem exprText_head (e : Expr) (h : Wf e) : ∃ y ys, exprText e = y :: ys ∧ StartChar y := by
+  cases h with
+  | ident s hs =>
+    obtain ⟨x, xs, rfl, hx, _⟩ := hs
+    exact ⟨x, xs, rfl, Or.inl hx⟩
+  | const v n hv hn =>
+    obtain ⟨⟨y, ys, hy, hd⟩, _⟩ := hn
+    refine ⟨y, ys, by simp [exprText, hy], ?_⟩
+    rcases hd with hd | hd
+    · exact Or.inr (Or.inl hd)
+    · exact Or.inr (Or.inr (Or.inr (Or.inr (Or.inr (Or.inr hd)))))
+  | func name a hn _ =>
+    obtain ⟨x, xs, rfl, hx, _⟩ := hn
+    exact ⟨x, xs ++ '(' :: exprText a ++ [')'], by simp [exprText], Or.inl hx⟩
+  | bin op l r _ _ => exact ⟨'(', _, by simp [exprText]; rfl, Or.inr (Or.inr (Or.inl rfl))⟩
+  | un u e _ =>
+    cases u with
+    | minus => exact ⟨'-', exprText e, by simp [exprText, UnOp.text], Or.inr (Or.inr (Or.inr (Or.inl rfl)))⟩
+    | bnot => exact ⟨'~', exprText e, by simp [exprText, UnOp.text], Or.inr (Or.inr (Or.inr (Or.inr (Or.inl rfl))))⟩
+    | lnot => exact ⟨'!', exprText e, by simp [exprText, UnOp.text], Or.inr (Or.inr (Or.inr (Or.inr (Or.inr (Or.inl rfl)))))⟩
+
+theorem startChar_noSpace (y : Char) (h : StartChar y) : isSpace y = false := by
+  rcases h with h | h | rfl | rfl | rfl | rfl | rfl
+  · exact (identStart_facts y h).2.1
+  · cases hsp : isSpace y with
+    | false => rfl
+    | true =>
+      simp only [isSpace, Bool.or_eq_true, beq_iff_eq] at hsp
+      rcases hsp with rfl | rfl <;> (revert h; decide)
+  all_goals decide
+
+theorem skip_exprText (e : Expr) (h : Wf e) (rest : Str) : skipSpace (exprText e ++ rest) = exprText e ++ rest := by
+  obtain ⟨y, ys, hy, hs⟩ := exprText_head e h
+  rw [hy]
+  simp [skipSpace, startChar_noSpace y hs]
+
+/-- the statement proved for every well-formed expression -/
+def Reads (e : Expr) : Prop :=
+  ∀ rest, AtomEnd rest → ∀ f, need (exprText e ++ rest) ≤ f + 1 → parsePrefixAtom f (exprText e ++ rest) = .ok e rest
+
+theorem reads_ident (s : Str) (hs : isName s) : Reads (.ident s) := by
+  intro rest hr f hf
+  obtain ⟨x, xs, rfl, hx, hxs⟩ := hs
+  have hn : isName (x :: xs) := ⟨x, xs, rfl, hx, hxs⟩
+  have fx := identStart_facts x hx
+  simp only [exprText] at hf ⊢
+  have hK := K_eq
+  have h2K : 2 * K ≤ need ((x :: xs) ++ rest) := by unfold need; exact Nat.mul_le_mul_right K (by simp)
+  obtain ⟨g, rfl⟩ : ∃ g, f = (g + 1) + prefixOps.length + 2 := ⟨f - prefixOps.length - 3, by omega⟩
+  rw [prefixAtom_atom _ (by
+    have := prefix_none_of x (xs ++ rest) ⟨fx.2.2.2.2.2.1, fx.2.2.2.2.2.2.1, fx.2.2.2.2.2.2.2.1⟩
+    simpa using this)]
+  have hid : identText ((x :: xs) ++ rest) = some (x :: xs, rest) :=
+    identText_name _ rest hn (fun y hy => (hr y hy).1)
+  have hskip : skipSpace rest = rest := by
+    cases rest with
+    | nil => rfl
+    | cons y ys => simp [skipSpace, (hr y rfl).2.2]
+  have hec : eConst ((x :: xs) ++ rest) = none := by
+    have h1 : ¬ '$' = x := fun h => fx.2.2.1 h.symm
+    have h0 : ¬ '0' = x := fun h => fx.2.2.2.2.2.2.2.2 h.symm
+    simp [eConst, constAlt, lit, takeWhileP, fx.1, h1, h0]
+  have hch : ch ((x :: xs) ++ rest) = none := by
+    simp only [List.cons_append, ch]
+    split
+    · rename_i heq; simp only [List.cons.injEq] at heq; exact absurd heq.1 fx.2.2.2.2.1
+    · rfl
+  simp only [parseAtom, hid, hskip, hec, hch]
+  have hnp : ∀ r2, rest ≠ '(' :: r2 := by
+    intro r2 h; subst h; exact (hr '(' rfl).2.1 rfl
+  split
+  · rename_i e r heq
+    split at heq
+    · exact absurd rfl (hr '(' rfl).2.1
+    · simp at heq
+  · rename_i heq
+    split at heq
+    · exact absurd rfl (hr '(' rfl).2.1
+    · simp at heq
+  · split
+    · rename_i e r heq
+      split at heq
+      · rename_i r1 hc; simp only [List.cons_append, List.cons.injEq] at hc; exact absurd hc.1 fx.2.2.2.1
+      · simp at heq
+    · rename_i heq
+      split at heq
+      · rename_i r1 hc; simp only [List.cons_append, List.cons.injEq] at hc; exact absurd hc.1 fx.2.2.2.1
+      · simp at heq
+    · rfl
+
+theorem reads_const (v : Int) (n : Nat) (hv : v = (n : Int)) (hn : NumText (intToDec v) n) : Reads (.const v) := by
+  intro rest hr f hf
+  simp only [exprText] at hf ⊢
+  have hK := K_eq
+  have h2K : 2 * K ≤ need (intToDec v ++ rest) := by unfold need; exact Nat.mul_le_mul_right K (by simp)
+  obtain ⟨g, rfl⟩ : ∃ g, f = (g + 1) + prefixOps.length + 2 := ⟨f - prefixOps.length - 3, by omega⟩
+  obtain ⟨y, ys, hs, hy⟩ := numText_head _ n hn rest
+  rw [prefixAtom_atom _ (by rw [hs]; exact prefix_none_num y ys hy)]
+  rw [parseAtom_num _ n hn rest (fun y hy => (hr y hy).1) g, hv]
+
+/-- a prefix operator's entry, and what comes before it -/
+abbrev PEnt := Str × UnOp × Nat
+
+def splitUn (u : UnOp) : List PEnt → Option (List PEnt × PEnt × List PEnt)
+  | [] => none
+  | x :: xs =>
+    if x.2.1 = u then some ([], x, xs)
+    else (splitUn u xs).map fun r => (x :: r.1, r.2.1, r.2.2)
+
+theorem splitUn_spec (u : UnOp) : ∀ (l pre : List PEnt) (e : PEnt) (post : List PEnt),
+    splitUn u l = some (pre, e, post) → l = pre ++ e :: post ∧ e.2.1 = u := by
+  intro l
+  induction l with
+  | nil => intro pre e post h; simp [splitUn] at h
+  | cons x xs ih =>
+    intro pre e post h
+    simp only [splitUn] at h
+    split at h
+    · rename_i hx
+      simp only [Option.some.injEq, Prod.mk.injEq] at h
+      obtain ⟨rfl, rfl, rfl⟩ := h
+      exact ⟨rfl, hx⟩
+    · simp only [Option.map_eq_some_iff] at h
+      obtain ⟨⟨p, e', q⟩, hs, heq⟩ := h
+      simp only [Prod.mk.injEq] at heq
+      obtain ⟨rfl, rfl, rfl⟩ := heq
+      obtain ⟨h1, h2⟩ := ih p e' q hs
+      exact ⟨by rw [h1]; rfl, h2⟩
+
+/-- checked once per prefix operator: it has an entry with its own one-character text, the
+    entries before it start differently, and its operand level is above every infix operator -/
+def checkUn (u : UnOp) : Bool :=
+  match splitUn u prefixOps with
+  | some (pre, e, _) => e.1 == u.text && u.text.length == 1 &&
+      (pre.all fun x => x.1.length == 1 && x.1 != u.text) && infixOps.all fun x => x.2.2.1 < e.2.2
+  | none => false
+
+theorem un_checked : ∀ u : UnOp, checkUn u = true := by
+  intro u; cases u <;> decide
+
+theorem un_split (u : UnOp) : ∃ pre lv post c, prefixOps = pre ++ (u.text, u, lv) :: post ∧ u.text = [c] ∧
+    (∀ x ∈ pre, ∃ d, x.1 = [d] ∧ d ≠ c) ∧ ∀ x ∈ infixOps, x.2.2.1 < lv := by
+  have h := un_checked u
+  unfold checkUn at h
+  split at h
+  · rename_i pre e post hs
+    obtain ⟨hl, he⟩ := splitUn_spec u _ _ _ _ hs
+    obtain ⟨t, b, lv⟩ := e
+    simp only [Bool.and_eq_true, beq_iff_eq, List.all_eq_true, decide_eq_true_eq, bne_iff_ne] at h
+    obtain ⟨⟨⟨h1, h2⟩, h3⟩, h4⟩ := h
+    simp only at he h1
+    subst he; subst h1
+    obtain ⟨c, hc⟩ : ∃ c, b.text = [c] := by
+      cases htx : b.text with
+      | nil => rw [htx] at h2; simp at h2
+      | cons c cs =>
+        cases cs with
+        | nil => exact ⟨c, rfl⟩
+        | cons _ _ => rw [htx] at h2; simp at h2
+    refine ⟨pre, lv, post, c, hl, hc, ?_, h4⟩
+    intro x hx
+    obtain ⟨hx1, hx2⟩ := h3 x hx
+    cases hxt : x.1 with
+    | nil => rw [hxt] at hx1; simp at hx1
+    | cons d ds =>
+      cases ds with
+      | nil =>
+        refine ⟨d, rfl, ?_⟩
+        intro hdc; apply hx2; rw [hxt, hc, hdc]
+      | cons _ _ => rw [hxt] at hx1; simp at hx1
+  · simp at h
+
+theorem tryPrefix_skip (s : Str) : ∀ (pre : List PEnt), (∀ x ∈ pre, lit x.1 s = none) → ∀ (tail : List PEnt) (f : Nat),
+    tryPrefix (f + pre.length) (pre ++ tail) s = tryPrefix f tail s := by
+  intro pre
+  induction pre with
+  | nil => intro _ tail f; rfl
+  | cons x more ih =>
+    intro hl tail f
+    obtain ⟨t, u, lv⟩ := x
+    have ht : lit t s = none := hl (t, u, lv) (List.mem_cons_self ..)
+    have : f + ((t, u, lv) :: more).length = (f + more.length) + 1 := by simp only [List.length_cons]; omega
+    rw [this]
+    simp only [List.cons_append, tryPrefix, ht]
+    exact ih (fun y hy => hl y (List.mem_cons_of_mem _ hy)) tail f
+
+theorem reads_un (u : UnOp) (e : Expr) (he : Wf e) (ih : Reads e) : Reads (.un u e) := by
+  intro rest hr f hf
+  obtain ⟨pre, lv, post, c, hsplit, hc, hpre, hlv⟩ := un_split u
+  simp only [exprText, hc, List.cons_append, List.nil_append] at hf ⊢
+  have hK := K_eq
+  have hP : pre.length + 1 ≤ prefixOps.length := by rw [hsplit]; simp
+  have hstep := need_step (exprText e ++ rest) (c :: (exprText e ++ rest)) (by simp)
+  -- fuel: parsePrefixAtom, the skipped entries, the entry, parseInfix, then the operand and the loop
+  obtain ⟨g, rfl⟩ : ∃ g, f = ((g + 1) + 1 + pre.length) + 1 := ⟨f - pre.length - 3, by omega⟩
+  simp only [parsePrefixAtom]
+  rw [hsplit, tryPrefix_skip _ pre (by
+    intro x hx
+    obtain ⟨d, hd, hdc⟩ := hpre x hx
+    rw [hd]; simp [lit, hdc])]
+  simp only [tryPrefix, hc, lit, if_true]
+  have hsk : (if Gen.prefixSpace = true then skipSpace (exprText e ++ rest) else exprText e ++ rest) = exprText e ++ rest := by
+    split
+    · exact skip_exprText e he rest
+    · rfl
+  rw [hsk]
+  simp only [parseInfix]
+  rw [ih rest hr g (by omega)]
+  simp only
+  have hloop : parseLoop g lv e rest = .ok e rest := by
+    obtain ⟨g2, hg2⟩ : ∃ g2, g = g2 + 1 := ⟨g - 1, by omega⟩
+    rw [hg2]
+    simp only [parseLoop]
+    exact tryInfix_above lv e rest rest infixOps hlv g2 (by omega)
+  rw [hloop]
+
+theorem reads_func (name : Str) (a : Expr) (hname : isName name) (ha : Wf a) (ih : Reads a) :
+    Reads (.func (.ident name) a) := by
+  intro rest hr f hf
+  obtain ⟨x, xs, rfl, hx, hxs⟩ := hname
+  have hn : isName (x :: xs) := ⟨x, xs, rfl, hx, hxs⟩
+  have fx := identStart_facts x hx
+  have hform : exprText (.func (.ident (x :: xs)) a) ++ rest = (x :: xs) ++ ('(' :: (exprText a ++ (')' :: rest))) := by
+    simp [exprText]
+  rw [hform] at hf ⊢
+  have hK := K_eq
+  have hstep := need_step (exprText a ++ (')' :: rest)) ((x :: xs) ++ ('(' :: (exprText a ++ (')' :: rest)))) (by simp; omega)
+  have hrest : (rest.length + 2) * K ≤ need (exprText a ++ (')' :: rest)) := by
+    unfold need; exact Nat.mul_le_mul_right K (by simp; omega)
+  obtain ⟨g, rfl⟩ : ∃ g, f = (((g + 1) + 1) + 1) + prefixOps.length + 2 := ⟨f - prefixOps.length - 5, by omega⟩
+  rw [prefixAtom_atom _ (by
+    have := prefix_none_of x (xs ++ ('(' :: (exprText a ++ (')' :: rest)))) ⟨fx.2.2.2.2.2.1, fx.2.2.2.2.2.2.1, fx.2.2.2.2.2.2.2.1⟩
+    simpa using this)]
+  have hid : identText ((x :: xs) ++ ('(' :: (exprText a ++ (')' :: rest)))) = some (x :: xs, '(' :: (exprText a ++ (')' :: rest))) :=
+    identText_name _ _ hn (by intro y hy; simp at hy; subst hy; decide)
+  have hsk1 : skipSpace ('(' :: (exprText a ++ (')' :: rest))) = '(' :: (exprText a ++ (')' :: rest)) := by simp +decide [skipSpace]
+  have hsk2 := skip_exprText a ha (')' :: rest)
+  have hsk3 : skipSpace (')' :: rest) = ')' :: rest := by simp +decide [skipSpace]
+  have hinner : parseInfix (g + 1 + 1) 0 (exprText a ++ (')' :: rest)) = .ok a (')' :: rest) := by
+    simp only [parseInfix]
+    rw [ih (')' :: rest) (atomEnd_paren rest) (g + 1) (by omega)]
+    simp only
+    exact loop_paren (g + 1) 0 a rest (by omega)
+  simp only [parseAtom, hid, hsk1, hsk2, hinner, hsk3]
+
+theorem nonStart_noStart (y : Char) (h : nonStart y) : noStart y ∧ isSpace y = false := by
+  rcases h with rfl | rfl | rfl | rfl | rfl
+  · exact ⟨Or.inr (Or.inr (Or.inr (Or.inr (Or.inl rfl)))), by decide⟩
+  · exact ⟨Or.inr (Or.inr (Or.inr (Or.inr (Or.inr (Or.inl rfl))))), by decide⟩
+  · exact ⟨Or.inr (Or.inr (Or.inr (Or.inr (Or.inr (Or.inr (Or.inl rfl)))))), by decide⟩
+  · exact ⟨Or.inr (Or.inr (Or.inr (Or.inr (Or.inr (Or.inr (Or.inr (Or.inl rfl))))))), by decide⟩
+  · exact ⟨Or.inr (Or.inr (Or.inr (Or.inr (Or.inr (Or.inr (Or.inr (Or.inr (Or.inl rfl)))))))), by decide⟩
+
+theorem op_text_head (op : BinOp) : ∃ y ys, op.text = y :: ys ∧ isSpace y = false := by
+  cases op <;> exact ⟨_, _, rfl, by decide⟩
+
+theorem op_text_len (op : BinOp) : 1 ≤ op.text.length := by cases op <;> simp [BinOp.text]
+
+theorem reads_bin (op : BinOp) (l r : Expr) (hl : Wf l) (hr' : Wf r) (ihl : Reads l) (ihr : Reads r) :
+    Reads (.bin op l r) := by
+  intro rest hr f hf
+  -- the texts
+  let X := op.text ++ (exprText r ++ (')' :: rest))
+  have hform : exprText (.bin op l r) ++ rest = '(' :: (exprText l ++ (op.text ++ (exprText r ++ (')' :: rest)))) := by
+    simp [exprText]
+  rw [hform] at hf ⊢
+  have hK := K_eq
+  obtain ⟨c, rest', hcr, hc⟩ : ∃ c rest', exprText r ++ (')' :: rest) = c :: rest' ∧ StartChar c := by
+    obtain ⟨y, ys, hy, hs⟩ := exprText_head r hr'
+    exact ⟨y, ys ++ (')' :: rest), by rw [hy]; rfl, hs⟩
+  obtain ⟨ly, lys, hly, _⟩ := exprText_head l hl
+  have hoplen := op_text_len op
+  have hllen : 1 ≤ (exprText l).length := by rw [hly]; simp
+  -- fuel
+  have hs1 := need_step (exprText l ++ (op.text ++ (exprText r ++ (')' :: rest))))
+    ('(' :: (exprText l ++ (op.text ++ (exprText r ++ (')' :: rest))))) (by simp)
+  have hs2 := need_step (exprText r ++ (')' :: rest)) (exprText l ++ (op.text ++ (exprText r ++ (')' :: rest))))
+    (by simp only [List.length_append]; omega)
+  have hXK : ((op.text ++ (exprText r ++ (')' :: rest))).length + 1) * K ≤ need (exprText l ++ (op.text ++ (exprText r ++ (')' :: rest)))) := by
+    unfold need; exact Nat.mul_le_mul_right K (by simp only [List.length_append]; omega)
+  have hrestK : (rest.length + 2) * K ≤ need (exprText r ++ (')' :: rest)) := by
+    unfold need; exact Nat.mul_le_mul_right K (by simp; omega)
+  obtain ⟨pre, lv, post, hsplit, hpre⟩ := table_split op
+  have hI : pre.length + 1 ≤ infixOps.length := by rw [hsplit]; simp
+  -- parsePrefixAtom → parseAtom
+  obtain ⟨g, rfl⟩ : ∃ g, f = ((g + 1) + 1) + prefixOps.length + 2 := ⟨f - prefixOps.length - 4, by omega⟩
+  rw [prefixAtom_atom _ (prefix_none_of '(' _ (by decide))]
+  have hid : identText ('(' :: (exprText l ++ (op.text ++ (exprText r ++ (')' :: rest))))) = none := by simp +decide [identText]
+  have hsk1 := skip_exprText l hl (op.text ++ (exprText r ++ (')' :: rest)))
+  have hsk3 : skipSpace (')' :: rest) = ')' :: rest := by simp +decide [skipSpace]
+  -- the operator loop after the left operand
+  have hskX : skipSpace (op.text ++ (exprText r ++ (')' :: rest))) = op.text ++ (exprText r ++ (')' :: rest)) := by
+    obtain ⟨y, ys, hy, hsp⟩ := op_text_head op
+    rw [hy]; simp [skipSpace, hsp]
+  have hloop : parseLoop g 0 l (op.text ++ (exprText r ++ (')' :: rest))) = .ok (.bin op l r) (')' :: rest) := by
+    obtain ⟨g1, hg1⟩ : ∃ g1, g = (((g1 + 1) + 1) + pre.length) + 1 := ⟨g - pre.length - 3, by omega⟩
+    rw [hg1]
+    simp only [parseLoop]
+    rw [hsplit, tryInfix_skip 0 l _ _ pre (by
+      intro x hx
+      rw [hskX, hcr]
+      rcases lit_before x.1 op.text (hpre x hx) c rest' hc with h | ⟨y, ys, h, hy⟩
+      · exact Or.inl h
+      · exact Or.inr ⟨y, ys, h, nonStart_noStart y hy⟩) _ (g1 + 1 + 1) (by omega)]
+    simp only [tryInfix, Nat.not_lt_zero, if_false, hskX, lit_self]
+    rw [skip_exprText r hr' (')' :: rest)]
+    have hright : parseInfix (g1 + 1) (lv + 1) (exprText r ++ (')' :: rest)) = .ok r (')' :: rest) := by
+      simp only [parseInfix]
+      rw [ihr (')' :: rest) (atomEnd_paren rest) g1 (by omega)]
+      simp only
+      exact loop_paren g1 (lv + 1) r rest (by omega)
+    rw [hright]
+    simp only
+    exact loop_paren (g1 + 1) 0 (.bin op l r) rest (by omega)
+  have hinner : parseInfix (g + 1) 0 (exprText l ++ (op.text ++ (exprText r ++ (')' :: rest)))) = .ok (.bin op l r) (')' :: rest) := by
+    simp only [parseInfix]
+    rw [ihl _ (atomEnd_op op _) g (by omega)]
+    simp only
+    exact hloop
+  simp only [parseAtom, hid, hsk1, hinner, hsk3]
+
+/-- **the text pasted for an expression argument reads back as the same expression** -/
+theorem argument_text_reads_back (e : Expr) (h : Wf e) : Reads e := by
+  induction h with
+  | ident s hs => exact reads_ident s hs
+  | const v n hv hn => exact reads_const v n hv hn
+  | func name a hn ha ih => exact reads_func name a hn ha ih
+  | bin op l r hl hr ihl ihr => exact reads_bin op l r hl hr ihl ihr
+  | un u e he ih => exact reads_un u e he ih
+
+/-- … through `expr()` itself, with the fuel `expr()` takes, wherever the text ends an operand -/
+theorem expr_reads_back (e : Expr) (h : Wf e) (rest : Str) (hr : AtomEnd rest) (ho : OpEnd rest) :
+    expr (exprText e ++ rest) = .ok e rest := by
+  have hK := K_eq
+  obtain ⟨y, ys, hy, _⟩ := exprText_head e h
+  have hlen : 1 ≤ (exprText e).length := by rw [hy]; simp
+  have hF : exprFuel (exprText e ++ rest) = need (exprText e ++ rest) := rfl
+  have hrestK : (rest.length + 1) * K + 2 * K ≤ need (exprText e ++ rest) := by
+    unfold need
+    have : (rest.length + 1) * K + 2 * K = (rest.length + 3) * K := by rw [← Nat.add_mul]
+    rw [this]
+    exact Nat.mul_le_mul_right K (by simp only [List.length_append]; omega)
+  unfold expr
+  obtain ⟨g, hg⟩ : ∃ g, exprFuel (exprText e ++ rest) = (g + 1) + 1 := ⟨exprFuel (exprText e ++ rest) - 2, by omega⟩
+  rw [hg]
+  simp only [parseInfix]
+  rw [argument_text_reads_back e h rest hr (g + 1) (by omega)]
+  simp only [parseLoop]
+  exact tryInfix_through 0 e rest rest ho infixOps (fun x hx => hx) g (by omega)
+
+/-! non-vacuity: `(1<<(k+3))`, the text pasted for the argument `1 << (k + 3)` -/
+example : Wf (.bin .shl (.const 1) (.bin .add (.ident ['k']) (.const 3))) :=
+  .bin _ _ _ (.const 1 1 rfl (numText_dec [(false, 1)] (by decide) (by decide) (Or.inr ⟨_, _, rfl, by decide⟩)))
+    (.bin _ _ _ (.ident _ ⟨'k', [], rfl, by decide, by decide⟩)
+      (.const 3 3 rfl (numText_dec [(false, 3)] (by decide) (by decide) (Or.inr ⟨_, _, rfl, by decide⟩))))
+example : exprText (.bin .shl (.const 1) (.bin .add (.ident ['k']) (.const 3))) = "(1<<(k+3))".toList := by decide
+
+end ReadBack
 
 end Avra.Props.C09
